@@ -181,6 +181,10 @@ def ctor_types(ctx, facts):
     return n
 
 
+def short_(fid):
+    return "::".join(fid.split("::")[-2:])
+
+
 def run(ctx, facts):
     for k, v in RULES.items():
         ctx.rule(k, v)
@@ -201,6 +205,27 @@ def run(ctx, facts):
     ctx.floor("C12 seeding site arguments", ns, 17)
     nk = ctor_types(ctx, facts)
     ctx.floor("C12 constructors taking a hasher", nk, 4)
+    # a std HashMap yields its entries in an order keyed by per-process random state: the entry points that consume one must
+    # not depend on that order — every item gets its race whatever came before it (exits, pruning and deferral of C02)
+    from . import C02, C13
+    ctx.rule("ORDER", "the entry points that iterate a HashMap (whose order is keyed by per-process random state) leave their loops "
+                      "over the items only when the container is exhausted, and prune/defer an item only on a comparison with the "
+                      "tracker maximum (EXIT of C02 on those functions)")
+    hm = [f for f in C02.PROTO_FNS if f.endswith("hash_weigthed_hashmap") and facts.has(f)]
+    sub = type(ctx)(ctx.prop, ctx.tier)
+    sub.configs = list(ctx.configs)
+    n_ = 0
+    for f in hm:
+        n_ += C02._exit_rule(sub, facts, f)
+    for v in sub.violations:
+        ctx.violation("ORDER", v["fn"], v["instance"], v["where"], v["message"])
+    if not sub.violations:
+        ctx.ok("ORDER", ", ".join(short_(f) for f in hm), "%d exit / pruning instances of the HashMap entry points are legitimate" % n_, "")
+    ctx.floor("C12 HashMap entry points", len(hm), 2)
+    # histories: an instance brought back by reinit()/reset() is a constructed instance
+    ctx.rule("REINIT", "reinit/reset re-establishes every live mutated field with the constructor's value (RESET analysis of C13): an "
+                       "instance reused after it produces what a new instance produces")
+    C13.require_verified_reset(ctx, facts, [x for x in (C13.SMH, C13.SMH2, C13.SS, C13.OD, C13.RD, C13.P2)], "REINIT")
 
 
 def thorough(ctx, src):
